@@ -187,15 +187,12 @@ func (s *stringObject) getOwnPropStr(name unistring.String) Value {
 
 func (s *stringObject) getOwnPropIdx(idx valueInt) Value {
 	i := int64(idx)
-	if i >= 0 {
-		if i < int64(s.length) {
-			val := s._getIdx(int(i))
-			return &valueProperty{
-				value:      val,
-				enumerable: true,
-			}
+	if i >= 0 && i < int64(s.length) {
+		val := s._getIdx(int(i))
+		return &valueProperty{
+			value:      val,
+			enumerable: true,
 		}
-		return nil
 	}
 
 	return s.baseObject.getOwnPropStr(idx.string())
